@@ -11,6 +11,7 @@ import (
 	"os"
 	"path"
 	"path/filepath"
+	"strconv"
 	"strings"
 	"syscall"
 
@@ -163,6 +164,17 @@ func checkConditionalMatches(fi *FileInfo, ifMatch, ifNoneMatch ConditionalMatch
 	return nil
 }
 
+// createUploadFile creates a new, uniquely named file in dir.
+func createUploadFile(dir string) (*os.File, error) {
+	for i := 0; ; i++ {
+		name := filepath.Join(dir, ".webdav-upload-"+strconv.Itoa(i))
+		f, err := os.OpenFile(name, os.O_WRONLY|os.O_CREATE|os.O_EXCL, 0666)
+		if !os.IsExist(err) || i >= 10000 {
+			return f, err
+		}
+	}
+}
+
 func (fs LocalFileSystem) Create(ctx context.Context, name string, body io.ReadCloser, opts *CreateOptions) (fi *FileInfo, created bool, err error) {
 	p, err := fs.localPath(name)
 	if err != nil {
@@ -170,7 +182,7 @@ func (fs LocalFileSystem) Create(ctx context.Context, name string, body io.ReadC
 	}
 	fi, _ = fs.Stat(ctx, name)
 	created = fi == nil
-	if fi != nil && fi.IsDir {
+	if (fi != nil && fi.IsDir) || p == filepath.Clean(string(fs)) {
 		return nil, false, NewHTTPError(http.StatusMethodNotAllowed, fmt.Errorf("webdav: cannot PUT to a collection"))
 	}
 
@@ -178,7 +190,10 @@ func (fs LocalFileSystem) Create(ctx context.Context, name string, body io.ReadC
 		return nil, false, err
 	}
 
-	wc, err := os.Create(p)
+	// Upload into a temporary file next to the target and move it into place
+	// once the whole body has arrived, so that an upload which fails midway
+	// leaves an already existing file untouched
+	wc, err := createUploadFile(filepath.Dir(p))
 	if err != nil {
 		// The file itself is being created, so what doesn't exist is its
 		// parent collection
@@ -188,14 +203,20 @@ func (fs LocalFileSystem) Create(ctx context.Context, name string, body io.ReadC
 			return nil, false, httpErr
 		}
 	}
+	tmp := wc.Name()
 	defer wc.Close()
 
 	if _, err := io.Copy(wc, body); err != nil {
-		os.Remove(p)
+		wc.Close()
+		os.Remove(tmp)
 		return nil, false, errFromOS(err)
 	}
 	if err := wc.Close(); err != nil {
-		os.Remove(p)
+		os.Remove(tmp)
+		return nil, false, errFromOS(err)
+	}
+	if err := os.Rename(tmp, p); err != nil {
+		os.Remove(tmp)
 		return nil, false, errFromOS(err)
 	}
 
